@@ -411,7 +411,7 @@ def _unit_tabulate(ctx, cls: str) -> None:
                 for d in dates:
                     for t in (times if is_dt else times[:1]):
                         w0 = _dt.datetime(*d, *t)
-                        for ws in (range(7) if unit == "week" and d == dates[3] and t == times[0] else (0,)):
+                        for ws in (range(7) if unit == "week" and d in (dates[3], dates[0], dates[4]) and t == times[0] else (0,)):      # a Sunday, a Thursday, a Tuesday x every first day of the week
                             lo, hi = _bounds(w0, unit, ws)
                             trs = [None]
                             if is_dt and (deep or d in dates[:4]):
